@@ -92,3 +92,80 @@ fn c17_ngram_3_3() {
     assert!(c17_ngram_check(3, 3, 2) == None);
     kani::cover!(true);
 }
+
+// the iterator yields ngram_items(0), ngram_items(1), ... and stops at the first start position whose shortest n-gram
+// does not fit: exactly 3 - min + 1 items for three tokens, item i holding the n-grams that start at token i
+fn c17_iter_check(min: usize, max: usize) -> usize {
+    let mut it = NGramList::new(vec!["a", "b", "c"], (min, max)).into_iter();
+    let mut i = 0;
+    while let Some(items) = it.next() {
+        assert!(i + min <= 3);
+        let longest = if i + max <= 3 { max } else { 3 - i };
+        assert!(items.len() == longest - min + 1);
+        assert!(items[0] == C17_TEXT[2 * i..2 * i + 2 * min - 1]);
+        assert!(items[items.len() - 1] == C17_TEXT[2 * i..2 * i + 2 * longest - 1]);
+        i += 1;
+    }
+    assert!(it.next().is_none());                                      // stays exhausted
+    i
+}
+
+// @unit class=bounded tier=quick mem=light bound="tokens a b c; (min,max)=(1,1)" timeout=900 fns=linfa_preprocessing::helpers::NGramListIntoIterator::next,linfa_preprocessing::helpers::NGramList::into_iter,linfa_preprocessing::helpers::NGramList::ngram_items
+#[kani::proof]
+#[kani::unwind(8)]
+#[kani::stub(alloc::fmt::format, fmt_stub)]
+fn c17_ngram_iter_1_1() {
+    let n = c17_iter_check(1, 1);
+    assert!(n == 3);
+    kani::cover!(n == 3);
+}
+
+// @unit class=bounded tier=quick mem=light bound="tokens a b c; (min,max)=(1,2)" timeout=900 fns=linfa_preprocessing::helpers::NGramListIntoIterator::next,linfa_preprocessing::helpers::NGramList::into_iter,linfa_preprocessing::helpers::NGramList::ngram_items
+#[kani::proof]
+#[kani::unwind(8)]
+#[kani::stub(alloc::fmt::format, fmt_stub)]
+fn c17_ngram_iter_1_2() {
+    let n = c17_iter_check(1, 2);
+    assert!(n == 3);
+    kani::cover!(n == 3);
+}
+
+// @unit class=bounded tier=quick mem=light bound="tokens a b c; (min,max)=(1,3)" timeout=900 fns=linfa_preprocessing::helpers::NGramListIntoIterator::next,linfa_preprocessing::helpers::NGramList::into_iter,linfa_preprocessing::helpers::NGramList::ngram_items
+#[kani::proof]
+#[kani::unwind(8)]
+#[kani::stub(alloc::fmt::format, fmt_stub)]
+fn c17_ngram_iter_1_3() {
+    let n = c17_iter_check(1, 3);
+    assert!(n == 3);
+    kani::cover!(n == 3);
+}
+
+// @unit class=bounded tier=quick mem=light bound="tokens a b c; (min,max)=(2,2)" timeout=900 fns=linfa_preprocessing::helpers::NGramListIntoIterator::next,linfa_preprocessing::helpers::NGramList::into_iter,linfa_preprocessing::helpers::NGramList::ngram_items
+#[kani::proof]
+#[kani::unwind(8)]
+#[kani::stub(alloc::fmt::format, fmt_stub)]
+fn c17_ngram_iter_2_2() {
+    let n = c17_iter_check(2, 2);
+    assert!(n == 2);
+    kani::cover!(n == 2);
+}
+
+// @unit class=bounded tier=quick mem=light bound="tokens a b c; (min,max)=(2,3)" timeout=900 fns=linfa_preprocessing::helpers::NGramListIntoIterator::next,linfa_preprocessing::helpers::NGramList::into_iter,linfa_preprocessing::helpers::NGramList::ngram_items
+#[kani::proof]
+#[kani::unwind(8)]
+#[kani::stub(alloc::fmt::format, fmt_stub)]
+fn c17_ngram_iter_2_3() {
+    let n = c17_iter_check(2, 3);
+    assert!(n == 2);
+    kani::cover!(n == 2);
+}
+
+// @unit class=bounded tier=quick mem=light bound="tokens a b c; (min,max)=(3,3)" timeout=900 fns=linfa_preprocessing::helpers::NGramListIntoIterator::next,linfa_preprocessing::helpers::NGramList::into_iter,linfa_preprocessing::helpers::NGramList::ngram_items
+#[kani::proof]
+#[kani::unwind(8)]
+#[kani::stub(alloc::fmt::format, fmt_stub)]
+fn c17_ngram_iter_3_3() {
+    let n = c17_iter_check(3, 3);
+    assert!(n == 1);
+    kani::cover!(n == 1);
+}
